@@ -27,7 +27,7 @@ TRUSTED = ['primitive semantics assumed by the scheduler and by the model: Queue
            'operation by operation, on the sessions of this run']
 ASSUMPTIONS = ['in-memory network instead of TCP (no partial sendall, no RST, no accept backlog limit)',
                'admission is exercised by C20; here four conforming clients connect in a scheduler-chosen order']
-REQUIRED_COUNTERS = {'quick': ['sessions', 'policy_stall', 'passed_out_boards'],
+REQUIRED_COUNTERS = {'quick': ['sessions', 'policy_stall', 'passed_out_boards', 'sync_window_sessions'],
                      'thorough': ['sessions', 'policy_stall', 'passed_out_boards', 'stall_sweep_sessions']}
 
 
@@ -40,6 +40,25 @@ def extra_checks(ctx):
     import session_props as SP
     n = 6 if ctx.quick else 60
     fails = SP.campaign(ctx, WANT, n)
+    # synchronisation windows: every party of the barrier withheld (for as long as anything else can run) right after
+    # each of its barrier arrivals / departures — the places where a rendezvous can be lapped, reset or lost
+    scw = session.gen_scenario(random.Random(f'windows/{ctx.seed}'), 2, fancy=False, kinds=['passout', 'short'])
+    nbar = 1 + 2 * len(scw['boards'])
+    victims = ['main'] + [f'seat:client-{p}' for p in (['N', 'E', 'S', 'W'] if not ctx.quick else [random.Random(ctx.seed).choice('NESW')])]
+    jobs = [(v, op, k) for v in victims for op in ('arrive', 'depart') for k in range(1, nbar + 1)]
+    driver = common.ModelDriver()
+    modelw = None
+    for v, op, k in jobs[ctx.shard::ctx.nshards]:
+        pdesc = {'kind': 'stall_after', 'base': {'kind': 'lowest', 'order': SP.CANON_ORDER}, 'victim': v, 'op': op, 'k': k,
+                 'length': 10 ** 7}
+        diffs, r, modelw = SP.run_and_compare(driver, scw, pdesc, ctx.workdir, {'completion'}, modelw)
+        ctx.count('_cases')
+        ctx.count('_evals', r.steps)
+        ctx.count('sync_window_sessions')
+        ctx.distinct.add(hash(('window', v, op, k)))
+        for d in diffs:
+            fails.append({'key': d['what'], 'kind': SP.kind_of(d), 'scenario': scw, 'policy': pdesc,
+                          'schedule': r.schedule, 'diff': d})
     if not ctx.quick:
         for kinds in (['passout'], [None]):
             sc = session.gen_scenario(random.Random(f'sweep/{ctx.seed}/{kinds}'), 1, fancy=True, kinds=kinds)
